@@ -85,8 +85,12 @@ pub fn random_selection(r: &mut Rng, u: &Value) -> Value {
 /// aud / nonce strings incl. empty, Unicode, '~', '.', and 1 KB values
 pub fn gen_aud_nonce(r: &mut Rng) -> (String, String) {
     fn one(r: &mut Rng) -> String {
-        match r.below(10) {
+        match r.below(14) {
             0 => String::new(),
+            // texts that are JSON literals (a verifier comparing "as text" would confuse them with
+            // non-string claim values), and URL-shaped audiences with / without a trailing slash
+            10 => (*r.pick(&["null", "true", "false", "20240131", "0", "-1", "1.0", "[1]", "{}", "[]", "\"n\""])).to_string(),
+            11 => (*r.pick(&["https://rp.example.org", "https://rp.example.org/", "https://RP.example.org/cb", "https://rp.example.org:443/cb?x=1#f", "/", "//"])).to_string(),
             1 => "https://verifier.example/é😀中".into(),
             2 => "a~b~c".into(),
             3 => "x.y.z".into(),
